@@ -2209,7 +2209,8 @@ theorem setupState_eq (c : Cfg α) (s : St α) (a : EvalAns α) (eq : List (Opti
       { (growthRate c s2 a y1).1 with hist := (growthRate c s2 a y1).2 :: s.hist.tail } := rfl
 
 theorem setupPre_facts (c : Cfg α) (s : St α) (a : EvalAns α) (eq : List (Option (List α × List α)))
-    (Q : Grid.State α → Prop) (hres : ∀ g, Q g → Q (Grid.reset g true)) (hq : AllQ Q s.ph) :
+    (Q : Grid.State α → Prop) (hres : ∀ g, Q g → Q (Grid.reset g true)) (hq : AllQ Q s.ph)
+    (ha : AnsShaped c s.ph.length a) :
     (setupPre c s a eq).1.ph.length = s.ph.length ∧ AllQ Q (setupPre c s a eq).1.ph := by
   have h0 : AllQ Q (s.ph.map (fun ps => { ps with grid := Grid.reset ps.grid true })) := by
     intro ps hps
@@ -2219,7 +2220,7 @@ theorem setupPre_facts (c : Cfg α) (s : St α) (a : EvalAns α) (eq : List (Opt
   unfold setupPre
   simp only
   split
-  · refine ⟨by rw [createLookup_length]; simp, createLookup_allQ Q _ _ _ h0⟩
+  · next hb => refine ⟨by rw [createLookup_length, ha.2 hb]; simp, createLookup_allQ Q _ _ _ h0⟩
   · refine ⟨by simp, ?_⟩
     intro ps hps
     simp only [List.mem_map] at hps
@@ -2231,12 +2232,12 @@ theorem setupState_ready (c : Cfg α) (s : St α) (a : EvalAns α) (eq : List (O
     (hs : StReady c s) (ha : AnsShaped c s.ph.length a) :
     StReady c (setupState c s a eq) ∧ (setupState c s a eq).ph.length = s.ph.length := by
   obtain ⟨hc, hcur, hq⟩ := hs
-  obtain ⟨hl, hQ⟩ := setupPre_facts c s a eq GridReady (gridReady_closed c).reset hq
+  obtain ⟨hl, hQ⟩ := setupPre_facts c s a eq GridReady (gridReady_closed c).reset hq ha
   rw [setupState_eq]
   simp only
   set sr := setupPre c s a eq with hsr
-  set s2 : St α := { ph := sr.1.ph.map (fun ps => { ps with growth := zerosL (ps.grid.bins + 1) }), lookT := sr.1.lookT,
-    lookEqA := sr.1.lookEqA, lookEqB := sr.1.lookEqB, hist := sr.2 :: s.hist.tail } with hs2
+  set s2 : St α := { sr.1 with ph := sr.1.ph.map (fun ps => { ps with growth := zerosL (ps.grid.bins + 1) }),
+                               hist := sr.2 :: s.hist.tail } with hs2
   have hl2 : s2.ph.length = s.ph.length := by simp [hs2, hl]
   have hQ2 : AllQ GridReady s2.ph := by
     intro ps hps
@@ -2268,12 +2269,12 @@ theorem setupState_rowBal (c : Cfg α) (s : St α) (a : EvalAns α) (eq : List (
     (hz : ∀ yp ∈ (s.cur c.nElem).ph, yp.volFrac = 0 ∧ ∀ e, yp.fconc.getD e 0 = 0) :
     RowBal c ((setupState c s a eq).cur c.nElem) := by
   obtain ⟨hc, hcur, hq⟩ := hs
-  obtain ⟨hl, _⟩ := setupPre_facts c s a eq GridReady (gridReady_closed c).reset hq
+  obtain ⟨hl, _⟩ := setupPre_facts c s a eq GridReady (gridReady_closed c).reset hq ha
   rw [setupState_eq]
   simp only [St.cur, List.headD_cons]
   set sr := setupPre c s a eq with hsr
-  set s2 : St α := { ph := sr.1.ph.map (fun ps => { ps with growth := zerosL (ps.grid.bins + 1) }), lookT := sr.1.lookT,
-    lookEqA := sr.1.lookEqA, lookEqB := sr.1.lookEqB, hist := sr.2 :: s.hist.tail } with hs2
+  set s2 : St α := { sr.1 with ph := sr.1.ph.map (fun ps => { ps with growth := zerosL (ps.grid.bins + 1) }),
+                               hist := sr.2 :: s.hist.tail } with hs2
   have hl2 : s2.ph.length = s.ph.length := by simp [hs2, hl]
   set y0 : Slice α := { s.cur c.nElem with comp := c.x0, temp := a.T } with hy0
   have hcur' : (List.headD s.hist (Slice.zero c.nElem)).ph.length = s.ph.length := hcur
@@ -2312,6 +2313,7 @@ theorem setupState_rowBal (c : Cfg α) (s : St α) (a : EvalAns α) (eq : List (
     rw [List.mem_map] at hv'
     obtain ⟨yp, hyp, rfl⟩ := hv'
     exact (hzero yp hyp).2 e
+  show RowBal c (growthRate c s2 a y1).2
   intro e _ _ _
   rw [hv, hf e, hcomp]; ring
 
@@ -2382,6 +2384,49 @@ example : (eulerStep cfg0 st0 10 (1 / 100) 10 ans0 []).isSome = true := by
 
 example : (rk4Step cfg0 st0 10 (1 / 100) 10 ans0 ans0 ans0 ans0 []).isSome = true := by
   simp [rk4Step, finishStep, updateAll, processAll, rk4Evals, stageX, entryX, st0, zip3]
+
+/-! a constructed ONE-PHASE model meets the hypotheses of the run theorems (`StReady`, empty precipitate fields), so
+`runFromSetup_total` and `runFromSetup_rowBal` speak about real histories: every run of this model, for every stream of
+well-shaped backend answers, runs through and every recorded row balances -/
+
+def pc1 : PhaseCfg ℚ :=
+  { id := 0, site := .bulk, isGB := false, gamma := 1 / 10, gbE := 0, vmBeta := 1, areaFactor := 12, volumeFactor := 4,
+    gbRemoval := 0, gbk := 1, rmin := 1 / 2, infinite := false, parents := [] }
+
+def cfg1 : Cfg ℚ := { cfg0 with phases := [pc1] }
+
+def st1 : St ℚ :=
+  { ph := [{ grid := g0, xaT := [], xbT := [], growth := [], dissIdx := 0, rdfIdx := 0 }], lookT := 700, lookEqA := [],
+    lookEqB := [], hist := [{ time := 0, temp := 700, comp := [1 / 10], ph := [PSlice.zero 1] }] }
+
+theorem st1_ready : StReady cfg1 st1 := by
+  refine ⟨rfl, rfl, ?_⟩
+  intro ps hps
+  simp only [st1, List.mem_singleton] at hps
+  subst hps
+  exact ⟨⟨C08.inv_init (1 : ℚ) 20 2 1 4 (by decide) (by norm_num) (by norm_num [Grid.amax2]), by decide, by decide, by decide⟩,
+    by decide, by decide, by decide⟩
+
+theorem st1_empty : ∀ yp ∈ (st1.cur cfg1.nElem).ph, yp.volFrac = 0 ∧ ∀ e, yp.fconc.getD e 0 = 0 := by
+  intro yp hyp
+  simp only [st1, St.cur, List.headD_cons, List.mem_singleton] at hyp
+  subst hyp
+  refine ⟨rfl, fun e => ?_⟩
+  cases e <;> simp [PSlice.zero, zerosL]
+
+/-- every history of the one-phase example model: it runs through, and every recorded row satisfies the solute balance -/
+theorem example_runs (a0 : EvalAns ℚ) (eq : List (Option (List ℚ × List ℚ))) (tf dtminS dtmaxS : ℚ) (steps : List (StepAns ℚ))
+    (ha : AnsShaped cfg1 1 a0) (hsh : ∀ au ∈ steps, StepShaped cfg1 1 au) :
+    ∃ r, runFromSetup cfg1 st1 a0 eq tf dtminS dtmaxS steps = some r ∧ ∀ y ∈ r.1.hist, RowBal cfg1 y := by
+  obtain ⟨r, hr⟩ := runFromSetup_total cfg1 st1 a0 eq tf dtminS dtmaxS steps st1_ready ha hsh
+  refine ⟨r, hr, ?_⟩
+  exact runFromSetup_rowBal cfg1 st1 a0 eq tf dtminS dtmaxS steps r.1 r.2 st1_ready ha hsh st1_empty
+    (by intro y hy; simp [st1] at hy) hr
+
+/-- and a well-shaped answer exists -/
+example : AnsShaped cfg1 1 { T := 700, D := 1, table := [{ eqOK := true, eqA := 0, eqB := 1, xa := [], xb := [] }],
+                             ph := [{ volDG := 0, thermoF := 1, d0 := 1, d1 := 1, tauNonIso := 0, arClass := [], kin := [],
+                                      eff := [], multi := none }] } := ⟨rfl, fun _ => rfl⟩
 
 end Example
 
